@@ -409,7 +409,7 @@ func RunC09(e *Env) (int, error) {
 	c.race = libsim.NewPool(e.Tree.Worker("race"), raceWorkers, 0, "GORACE=halt_on_error=1 exitcode=66")
 	defer c.race.Close()
 
-	n := e.N(2500, 60000)
+	n := e.N(2500, 25000)
 	K := e.Pick(6, 24)
 	coopEvery := int64(4)
 	freshEvery := int64(e.Pick(8, 8))
